@@ -959,7 +959,7 @@ impl BufferParser for Parser {
                         self.state = EngineState::Default;
 
                         if let Some(number) = self.parsed_numbers.first() {
-                            for _ in 0..*number {
+                            for _ in 0..min(*number, buf.terminal_state.get_width()) {
                                 caret.ins(buf, current_layer);
                             }
                         } else {
@@ -1045,7 +1045,7 @@ impl BufferParser for Parser {
                                 ).into());
                             }
                             if let Some(number) = self.parsed_numbers.first() {
-                                for _ in 0..*number {
+                                for _ in 0..min(*number, buf.terminal_state.get_width()) {
                                     caret.del(buf,current_layer);
                                 }
                             } else {
